@@ -276,15 +276,16 @@ func generate(rng *vkit.Rng, budget int) []genLoop {
 		if rep == 0 {
 			add("regular n=400", s2.RegularLoop(randPoint(rng), s1.Angle(rng.Range(1e-4, 1.0)), 400).Vertices(), false, true)
 			add("regular n=400 tiny", s2.RegularLoop(randPoint(rng), s1.Angle(1e-6), 400).Vertices(), false, true)
-			// many vertices AND tiny: the area (3e-14 .. 3e-13 sr) is below turningAngleMaxError(n), so the final
-			// orientation re-check of Loop.Area is the branch that decides; the triangle sum must survive it
-			add("regular n=1000 tiny r=1e-7", s2.RegularLoop(randPoint(rng), s1.Angle(1e-7), 1000).Vertices(), false, true)
-			add("regular n=1000 tiny r=3e-7", s2.RegularLoop(randPoint(rng), s1.Angle(3e-7), 1000).Vertices(), false, true)
 			// up to 10^4 vertices ([S] only)
 			add("regular n=2000", s2.RegularLoop(randPoint(rng), s1.Angle(rng.Range(1e-3, 1.4)), 2000).Vertices(), false, true)
 			add("regular n=10000", s2.RegularLoop(randPoint(rng), s1.Angle(rng.Range(1e-2, 1.0)), 10000).Vertices(), false, true)
 		}
 	}
+	// appended last (the random stream of everything above is unchanged).
+	// many vertices AND tiny: the area (3e-14 .. 3e-13 sr) is below turningAngleMaxError(n), so the final
+	// orientation re-check of Loop.Area is the branch that decides; the triangle sum must survive it
+	add("regular n=1000 tiny r=1e-7", s2.RegularLoop(randPoint(rng), s1.Angle(1e-7), 1000).Vertices(), false, true)
+	add("regular n=1000 tiny r=3e-7", s2.RegularLoop(randPoint(rng), s1.Angle(3e-7), 1000).Vertices(), false, true)
 	return out
 }
 
